@@ -184,8 +184,8 @@ static void mean_case(Tape& t, Ctx& c)
 // ---------------------------------------------------------------- composed filters: equal to applying the components in order
 static void composed_case(Tape& t, Ctx& c)
 {
-  long n = t.sized(1, 20, 3); int vcls = t.pick({3, 1}); int op = t.range(0, 3); int kind = t.range(0, 4);
-  static const char* kn[] = {"chain<unit,mean>", "sequence<unit>", "tuple<unit,unit_blocked2>", "power<unit,2>", "none"};
+  long n = t.sized(1, 20, 3); int vcls = t.pick({3, 1}); int op = t.range(0, 3); int kind = t.range(0, 8);
+  static const char* kn[] = {"chain<unit,mean>", "sequence<unit>", "tuple<unit,unit_blocked2>", "power<unit,2>", "none", "tuple<unit_blocked2,mean>", "tuple<unit,none,mean>", "power<mean,3>", "chain<unit,mean,unit>"};
   std::string ic1, ic2; std::vector<long> i1 = gen_index_set(t, n, ic1), i2 = gen_index_set(t, n, ic2);
   std::vector<double> v1 = gen_values(t, i1.size(), vcls), v2 = gen_values(t, i2.size() * 2, vcls), va = gen_values(t, (size_t)n, vcls), vb = gen_values(t, (size_t)(2 * n), vcls);
   std::vector<double> prim((size_t)n), dual((size_t)n); for(long i = 0; i < n; ++i) { prim[(size_t)i] = 1.0 + std::fabs(t.real(1)); dual[(size_t)i] = 0.5 + std::fabs(t.real(1)); }
@@ -210,6 +210,27 @@ static void composed_case(Tape& t, Ctx& c)
     PowerVector<DV, 2> pv((Index)n); vfill_all(pv, vb); DV a((Index)n), b((Index)n); { std::vector<double> h1(vb.begin(), vb.begin() + n), h2(vb.begin() + n, vb.end()); vfill_all(a, h1); vfill_all(b, h2); }
     apply_op(pf, pv, op); auto u1 = mk_unit(i1, v1, 1), u2 = mk_unit(i2, v2, 2); apply_op(u1, a, op); apply_op(u2, b, op);
     std::string x, y; vbytes(pv, x); vbytes(a, y); vbytes(b, y); VF_CHECK(x == y, "PowerFilter differs from applying its members to the components"); break; }
+  case 5: { // the standard Stokes filter: velocity Dirichlet values, pressure mean (the mean filter is NOT the first member)
+    typedef DenseVectorBlocked<DT, IT, 2> VB; UnitFilterBlocked<DT, IT, 2> ub((Index)n); for(size_t k = 0; k < i2.size(); ++k) { Tiny::Vector<DT, 2> q; q[0] = v2[2 * k]; q[1] = v2[2 * k + 1]; ub.add((Index)i2[k], q); }
+    TupleFilter<UnitFilterBlocked<DT, IT, 2>, MeanFilter<DT, IT>> tf(ub.clone(), mk_mean());
+    TupleVector<VB, DV> tv(VB((Index)n), DV((Index)n)); vfill_all(tv.template at<0>(), vb); vfill_all(tv.template at<1>(), va); VB a((Index)n); DV b((Index)n); vfill_all(a, vb); vfill_all(b, va);
+    apply_op(tf, tv, op); auto m = mk_mean(); apply_op(ub, a, op); apply_op(m, b, op);
+    std::string x, y; vbytes(tv, x); vbytes(a, y); vbytes(b, y); VF_CHECK(x == y, "TupleFilter<unit_blocked,mean> differs from applying its members to the components"); break; }
+  case 6: { TupleFilter<UnitFilter<DT, IT>, NoneFilter<DT, IT>, MeanFilter<DT, IT>> tf(mk_unit(i1, v1, 1), NoneFilter<DT, IT>(), mk_mean());
+    std::vector<double> h1(vb.begin(), vb.begin() + n), h2(vb.begin() + n, vb.end());
+    TupleVector<DV, DV, DV> tv(DV((Index)n), DV((Index)n), DV((Index)n)); vfill_all(tv.template at<0>(), va); vfill_all(tv.template at<1>(), h1); vfill_all(tv.template at<2>(), h2);
+    DV a((Index)n), b((Index)n), d((Index)n); vfill_all(a, va); vfill_all(b, h1); vfill_all(d, h2);
+    apply_op(tf, tv, op); auto u1 = mk_unit(i1, v1, 1); auto m = mk_mean(); apply_op(u1, a, op); apply_op(m, d, op);
+    std::string x, y; vbytes(tv, x); vbytes(a, y); vbytes(b, y); vbytes(d, y); VF_CHECK(x == y, "TupleFilter<unit,none,mean> differs from applying its members to the components"); break; }
+  case 7: { PowerFilter<MeanFilter<DT, IT>, 3> pf; pf.template at<0>() = mk_mean(); pf.template at<1>() = mk_mean(); pf.template at<2>() = mk_mean();
+    std::vector<double> h1(vb.begin(), vb.begin() + n), h2(vb.begin() + n, vb.end());
+    PowerVector<DV, 3> pv((Index)n); vfill_all(pv.template at<0>(), va); vfill_all(pv.template at<1>(), h1); vfill_all(pv.template at<2>(), h2);
+    DV a((Index)n), b((Index)n), d((Index)n); vfill_all(a, va); vfill_all(b, h1); vfill_all(d, h2);
+    apply_op(pf, pv, op); auto m = mk_mean(); apply_op(m, a, op); apply_op(m, b, op); apply_op(m, d, op);
+    std::string x, y; vbytes(pv, x); vbytes(a, y); vbytes(b, y); vbytes(d, y); VF_CHECK(x == y, "PowerFilter<mean,3> differs from applying its member to the blocks"); break; }
+  case 8: { /* the emplacement ctor of FilterChain does not compile for three members (std::move of a pack) */ FilterChain<UnitFilter<DT, IT>, MeanFilter<DT, IT>, UnitFilter<DT, IT>> ch; ch.template at<0>() = mk_unit(i1, v1, 1); ch.template at<1>() = mk_mean(); ch.template at<2>() = mk_unit(i2, v2, 2); DV a((Index)n), b((Index)n); vfill_all(a, va); vfill_all(b, va);
+    apply_op(ch, a, op); auto u = mk_unit(i1, v1, 1); auto m = mk_mean(); auto u2 = mk_unit(i2, v2, 2); apply_op(u, b, op); apply_op(m, b, op); apply_op(u2, b, op);
+    std::string x, y; vbytes(a, x); vbytes(b, y); VF_CHECK(x == y, "FilterChain<unit,mean,unit> differs from applying its members in order"); break; }
   default: { NoneFilter<DT, IT> nf; DV a((Index)n); vfill_all(a, va); std::string x, y; vbytes(a, x); apply_op(nf, a, op); vbytes(a, y); VF_CHECK(x == y, "NoneFilter changed the vector"); break; }
   }
 }
